@@ -602,8 +602,15 @@ class Repo:
             if dotted == "uuid.UUID":
                 import uuid as _uuid
 
-                args = [f(a) for a in expr.args]
-                kws = {k.arg: f(k.value) for k in expr.keywords if k.arg}
+                def plain(v: t.Any) -> t.Any:
+                    if isinstance(v, EnumVal):
+                        return v.value
+                    if isinstance(v, tuple):
+                        return tuple(plain(x) for x in v)
+                    return v
+
+                args = [plain(f(a)) for a in expr.args]
+                kws = {k.arg: plain(f(k.value)) for k in expr.keywords if k.arg}
                 try:
                     return _uuid.UUID(*args, **kws)
                 except Exception as e:
